@@ -903,8 +903,16 @@ pub fn encode(s: &Sprite, plan: &Plan) -> Encoded {
         total
     };
     out.bytes[0..4].copy_from_slice(&fs.to_le_bytes());
-    for _ in 0..plan.trailing {
-        out.bytes.push(cx.rng.next() as u8);
+    if plan.trailing > 0 && plan.trailing % 3 == 0 && !out.frame_starts.is_empty() && out.frame_ends.len() == out.frame_starts.len() {
+        // a third of the files with trailing bytes end in a stale copy of their last frame (what a writer leaves
+        // behind when it lowers the frame count without truncating the file): the header's frame count decides
+        let (a, b) = (*out.frame_starts.last().unwrap(), out.last_frame_end());
+        let stale = out.bytes[a..b].to_vec();
+        out.bytes.extend(stale);
+    } else {
+        for _ in 0..plan.trailing {
+            out.bytes.push(cx.rng.next() as u8);
+        }
     }
     out
 }
